@@ -235,6 +235,12 @@ class Check:
             "known_findings_reproduced": sorted(k for k, v in self.known_hit.items() if v),
             "stats": jsonable(self.stats),
         }
+        cov["explanation"] = (
+            "proof level: theorems in coq/Props/%s.v re-checked by coqc on this run against definitions regenerated from /repo; "
+            "hand-written model pieces tied to the code by differential correspondence; implementation-only oracles searched for a failing input" % self.pid)
+        if level == "proof" and not self.discharged:
+            # nothing was discharged on this run (broken build / broken proof): do not claim a proof in the evidence
+            level = "other"
         ev = {
             "property_id": self.pid,
             "tier": self.tier,
